@@ -243,6 +243,10 @@ LeafWhys(c, lf) ==
     IF res.kind = "ok" /\ honourable /\ Len(as) = c.wl.len /\ ~CapShapeOK(as) THEN "P:C05:atoms-are-not-list-words-capitalised-as-the-scheme-prescribes" ELSE "ok",
     IF res.kind = "ok" /\ honourable /\ \E k \in DOMAIN as : as[k].v \notin info.kept \cup info.titled THEN "P:C10:atom-is-neither-a-kept-word-nor-its-title-cased-form" ELSE "ok",
     IF res.kind = "ok" /\ res.str # Concat(res.toks, 1) THEN "P:C05:String()-is-not-the-concatenation-of-token-values" ELSE "ok",
+    \* a separator made by NewSFFunction is the password of a character recipe: one that Generate must refuse (C13's band on the exact
+    \* success fraction, under the budget in force) yields the empty separator, never a separator token
+    IF res.kind = "ok" /\ honourable /\ info.sep.kind = "recipe" /\ info.sep.refused /\ ~HasEmptiedReq(info.sep.r) /\ SepsOf(res.toks) # <<>>
+      THEN "P:C13:a-separator-recipe-that-Generate-must-refuse-produced-a-separator" ELSE "ok",
     IF res.kind = "ok" /\ c.ent.k # "panic" /\ SepEntropyFixed /\ ~SameFloat(res.ent, c.ent) THEN "P:C06:Password.Entropy-differs-from-recipe-Entropy()" ELSE "ok",
     \* the choices of this very run are made with probability 1/pp (pp = product of the bounds of all its draws, each index having
     \* probability 1/bound by C01) and determine the password, so the password has at least that probability: pp >= 2^Entropy
